@@ -14,7 +14,7 @@ NOTE = ("Trusted base: Lean 4.33.0 kernel (leanchecker re-check in the thorough 
         "proved equal to the hand-written model's; a source construct they cannot read is listed as untied and is then tied by the correspondence alone.")
 
 CLAIMED = {
- "C01": ("parse_no_panic / peek_no_panic proved for every byte string on the model (panicking Rust operations are explicit panic outcomes; every model loop passes Lean's termination checker); "
+ "C01": ("parseSteps_linear (C01Time: a cost-counting twin of the whole parser - every name-loop iteration, field, record and question, for accepted and rejected inputs alike - is bounded by 3146 * len + 12572 whatever the header counts and pointer chains say; 170 * len + 668 up to 512 bytes) and parseAlloc_linear (allocation units of the prefix parsed before an error <= 35 * len), both without a success hypothesis; parse_no_panic / peek_no_panic proved for every byte string on the model (panicking Rust operations are explicit panic outcomes; every model loop passes Lean's termination checker); "
          "partial for the runtime part: real time and heap are metered on the generated inputs, not proved.",
          "Lean 4 theorem (no-panic, termination) + differential correspondence + metered execution", "9/C01"),
  "C06": ("name_parse_sound/bounds/cursor/complete and the error corollaries proved for all buffers and offsets against the inductive RFC 1035 4.1.4 relation; "
